@@ -3,9 +3,11 @@ package main
 import (
 	"fmt"
 	"go/ast"
+	"go/parser"
 	"go/printer"
 	"go/token"
 	"io"
+	"path/filepath"
 )
 
 func printerFprint(w io.Writer, fset *token.FileSet, e ast.Expr) error {
@@ -19,3 +21,11 @@ func constantInt64(v interface{ ExactString() string }) (int64, bool) {
 }
 
 func fmtSscan(s string, n *int64) (int, error) { return fmt.Sscan(s, n) }
+
+func parseFileInto(fset *token.FileSet, rel string) (*token.FileSet, *ast.File) {
+	f, err := parser.ParseFile(fset, filepath.Join(repo, rel), nil, parser.ParseComments)
+	if err != nil {
+		die("parse %s: %v", rel, err)
+	}
+	return fset, f
+}
